@@ -21,6 +21,7 @@ type Case struct {
 	Classes      []string        `json:"classes,omitempty"`
 	OptSeed      int             `json:"opt_seed,omitempty"`
 	CustomCaches bool            `json:"custom_caches,omitempty"`
+	NameFamily   string          `json:"name_family,omitempty"`
 }
 
 const queriesPerConn = 6
@@ -70,6 +71,9 @@ func Run(c Case) (res core.Result) {
 	cfg := script.Config{Table: Table(c.NConn), SetLimit: true, Limit: 1 << 15, OptSeed: c.OptSeed, CustomCaches: c.CustomCaches}
 	if c.CustomCaches {
 		res.Labels = append(res.Labels, "user-supplied-caches")
+	}
+	if c.NameFamily != "" {
+		res.Labels = append(res.Labels, "names="+c.NameFamily)
 	}
 	mark := core.RaceMark()
 	env := script.Start(cfg)
